@@ -69,8 +69,9 @@ def solo_messages(kind, name, data, path, opts):
     parts = res.stdout.split(MARK.encode())
     tail = parts.pop()
     msgs = [p + MARK.encode() for p in parts]
-    _SOLO[key] = (msgs, tail, res.rc)
-    return _SOLO[key]
+    if name in ("pnp", "u22x3", "ubuntu16"):      # shipped inputs recur; generated ones are unique to their case
+        _SOLO[key] = (msgs, tail, res.rc)
+    return (msgs, tail, res.rc)
 
 
 def run_mixed_case(seed, i, tier, K=None, compare_schedules=False):
@@ -86,13 +87,16 @@ def run_mixed_case(seed, i, tier, K=None, compare_schedules=False):
     srcs = []     # (path, data, [(instant_ns, bytes)])
     NS = 1_000_000_000
     # the shipped inputs live in these time ranges; generated sources are placed inside them so the merge interleaves
-    evtx_recs = c10.dump("pnp")
+    if rng.random() < 0.5:
+        evtx_data, evtx_recs, _, evtx_pattern = c10.restamped(rng)      # the shipped records under other creation times (ties, reversed, ...)
+    else:
+        evtx_data, evtx_recs, evtx_pattern = fixtures.load("pnp"), c10.dump("pnp"), None
     t_lo = min(t for (_, _, t) in evtx_recs)
     t_hi = max(t for (_, _, t) in evtx_recs)
     for k in kinds:
         if k == "evtx":
-            data = fixtures.load("pnp")
-            msgs, tail, _ = solo_messages("evtx", "pnp", data, "e.evtx", opts)
+            data = evtx_data
+            msgs, tail, _ = solo_messages("evtx", "pnp" if evtx_pattern is None else "pnp-%d-%s" % (i, evtx_pattern), data, "e.evtx", opts)
             order = sorted(evtx_recs, key=lambda r: (r[2], r[0]))
             if len(msgs) != len(order):
                 continue
